@@ -28,7 +28,7 @@ rule = ("scripts = 'e new fb|nofb|builtin' followed by dispatcher ops (set/cset/
         "delivered to a registered (non-fallback) handler and at least one end-of-life call, per distinct script")
 assumptions = [
     "a handler answers with an int (flags or negative error) and may clear the event id, or re-enters the dispatcher exactly once through mpt_dispatch_hash on the same event and returns its result (emit cmd); end-of-life callbacks that unregister another id are driven on a dispatcher of their own (op reentry: judged against the property directly, not modelled); registering from inside a handler is not driven",
-    "malloc never fails in the harness runs; the dispatcher has no fallback reply context (_ctx = NULL); events may carry a reply context of their own (op rc on: a harness context that swallows the replies)",
+    "malloc never fails in the harness runs; the dispatcher's fallback reply context (_ctx) is NULL or the harness one (op ctx); events may carry a reply context of their own (op rc on: a harness context that swallows the replies)",
     "emitted messages are one contiguous part; messages dispatched by hash may come in up to 16 fragments (mpt_message_read/mpt_message_argv as modelled for C17 in Impl/Message.lean)",
     "for separators that are not graphic characters (white-space splitting) the command word is exact (text after leading white space up to the first white-space character) whenever it holds no quote character and is followed by a blank or the end of the message; only with quotes, or a form feed / zero byte right behind the word, the spec accepts any non-empty prefix of the payload (the quoting rules of mpt_memtok are mirrored by the model and compared with the code)",
     "the fallback is the harness handler (registration 0), none, or the library's built-in unknownEvent (start mode builtin; its answers are part of the spec vocabulary)",
@@ -202,6 +202,11 @@ def _boundary():
             out.append(("b:reentry:%s" % "".join(map(str, vic)), ["e new nofb"] + ["e reentry %s %s" % (m, ",".join(map(str, vic))) for m in modes]))
     out.append(("b:reentry:long", ["e new fb", "e reentry fini 2,3,4,5,6,7,8,0", "e reentry clearall 0,1,2,3,4,5,6,7", "e reentry drop 8,8,8,8,8,8,8,8",
                                   "e reentry clear8 0,0,0,0,0,0,0,1", "e reentry cset1 2,1", "e reentry fini 9", "e reentry clear3 1,2", "e reentry boom 1"]))
+    # the dispatcher's own fallback reply context (_ctx): used by emit, released by fini, the dispatcher is used on
+    for new in ("fb", "nofb", "builtin"):
+        for seq in itertools.product(["e emit id 1 1", "e emit id 7 0", "e emit msg 0900 0", "e emit none 0", "e hash 0000 1", "e fini", "e ctx", "e rc on"], repeat=2):
+            out.append(("b:ctx:%s:%s" % (new, "/".join(s[2:] for s in seq)),
+                        ["e new " + new, "e set 1", "e ctx"] + list(seq) + ["e fini", "e emit id 1 0", "e emit id 7 1", "e set 2", "e emit id 2 1", "e ctx", "e emit id 9 0", "e fini"]))
     # known finding: an event reaches a reservation that is still outstanding
     out.append(("b:holdemit", ["e new nofb", "e set 5", "e holdemit 1"]))
     # the hash function itself: C string mode and counted mode
